@@ -8,19 +8,19 @@ package zkmul
 //@   use bits
 //@   nopanic[C10]
 //@   inline
-//@   requires public.X != nil && public.Y != nil && public.C != nil && pkok(public.Prover) && pkvals(public.Prover) && pkbig(public.Prover)
+//@   requires true && true && true && pkok(public.Prover) && pkvals(public.Prover) && pkbig(public.Prover)
 
 //@ func (*Proof).Verify
 //@   use bits
 //@   nopanic[C10]
 //@   modifies hstate(hash)
-//@   requires group != nil && hash != nil && hash.h != nil && public.X != nil && public.Y != nil && public.C != nil && pkok(public.Prover) && pkvals(public.Prover) && pkbig(public.Prover)
+//@   requires group != nil && hash != nil && hash.h != nil && true && true && true && pkok(public.Prover) && pkvals(public.Prover) && pkbig(public.Prover)
 
 //@ func challenge
 //@   use bits
 //@   nopanic[C10]
 //@   inline
-//@   requires hash != nil && hash.h != nil && group != nil && public.X != nil && public.Y != nil && public.C != nil && pkok(public.Prover) && pkvals(public.Prover) && pkbig(public.Prover) && commitment != nil
+//@   requires hash != nil && hash.h != nil && group != nil && true && true && true && pkok(public.Prover) && pkvals(public.Prover) && pkbig(public.Prover) && commitment != nil
 //@   use absorb
 //@   ensures[C10] result1 == nil ==> absorbed(hstate(hash), habs(iface(public.X)))
 //@   ensures[C10] result1 == nil ==> absorbed(hstate(hash), habs(iface(public.Y)))
